@@ -309,6 +309,24 @@ func reifyStruct(opts *options, orig reflect.Value, cfg *Config) Error {
 
 			if fInfo.tagOptions.squash {
 				vField := chaseValue(fInfo.value)
+				if base := chaseTypePointers(vField.Type()); vField.Kind() == reflect.Ptr && base.Kind() == reflect.Struct && !tConfig.ConvertibleTo(base) {
+					// a nil pointer to an inlined struct is treated like any other
+					// nil pointer field: allocated only if the configuration has a
+					// setting for it, that is for one of the fields of the struct
+					mentioned, err := mentionsFieldOf(cfg, base, fInfo.options)
+					if err != nil {
+						return err
+					}
+					if !mentioned {
+						continue
+					}
+					st := reflect.New(base)
+					if err := reifyInto(fInfo.options, st, cfg); err != nil {
+						return err
+					}
+					vField.Set(pointerize(vField.Type(), base, st.Elem()))
+					continue
+				}
 				kind := vField.Kind()
 				if kind == reflect.Ptr {
 					// a nil pointer: what matters is what it points to, which
@@ -349,6 +367,45 @@ func reifyStruct(opts *options, orig reflect.Value, cfg *Config) Error {
 
 	orig.Set(pointerize(orig.Type(), to.Type(), to))
 	return nil
+}
+
+// mentionsFieldOf reports whether cfg has a (non null) setting for one of the
+// fields of the struct type t, the fields of inlined structs included.
+func mentionsFieldOf(cfg *Config, t reflect.Type, opts *options) (bool, Error) {
+	st := reflect.New(t).Elem()
+	for i := 0; i < t.NumField(); i++ {
+		fInfo, skip, err := accessField(st, i, opts)
+		if err != nil {
+			return false, err
+		}
+		if skip {
+			continue
+		}
+		if fInfo.tagOptions.squash {
+			switch base := chaseTypePointers(fInfo.ftype); base.Kind() {
+			case reflect.Struct:
+				if ok, err := mentionsFieldOf(cfg, base, fInfo.options); ok || err != nil {
+					return ok, err
+				}
+			default: // an inlined map or list takes whatever the namespace holds
+				if len(cfg.fields.dict()) > 0 || len(cfg.fields.array()) > 0 {
+					return true, nil
+				}
+			}
+			continue
+		}
+		value, err := parsePathWithOpts(fInfo.name, fInfo.options).GetValue(cfg, fInfo.options)
+		if err != nil {
+			if err.Reason() != ErrMissing {
+				return false, err
+			}
+			continue
+		}
+		if !isNil(value) {
+			return true, nil
+		}
+	}
+	return false, nil
 }
 
 func reifyGetField(
